@@ -168,7 +168,7 @@ def with_fail_plan(scn, rng, attempts=1, p=0.3):
                 n = rng.randint(1, attempts - 1)  # flaky: eventually succeeds
             fails[str(c)] = {
                 "n": n,
-                "exc": rng.choice(["Exception", "KeyError", "BaseExc", "SystemExit", "KeyboardInterrupt"])
+                "exc": rng.choice(["Exception", "KeyError", "BaseExc", "SystemExit", "KeyboardInterrupt", "CallError", "NodeError"])
                 if attempts == 1
                 else rng.choice(["Exception", "KeyError", "ValueError"]),
             }
@@ -185,7 +185,24 @@ class BaseExc(BaseException):
     pass
 
 
+def _call_error(msg):
+    """An exception of uberjob's own public error type, as a nested uberjob.run in a call raises."""
+    import uberjob
+    from uberjob.graph import Call
+
+    return uberjob.CallError(Call(len))
+
+
+def _node_error(msg):
+    from uberjob._errors import NodeError
+    from uberjob.graph import Call
+
+    return NodeError(Call(len))
+
+
 EXC_TYPES = {
+    "CallError": _call_error,
+    "NodeError": _node_error,
     "Exception": Exception,
     "KeyError": KeyError,
     "ValueError": ValueError,
